@@ -50,6 +50,9 @@ FACT = (
     lambda: t.Optional[list[int]],
     lambda: tuple[int, str],
     lambda: tuple[str, int],
+    # equal-comparing aliases that convert differently (unions are tried left to right): a memo keyed by VALUE would mix them
+    lambda: list[t.Union[int, float]],
+    lambda: list[t.Union[float, int]],
 )
 NF = len(FACT)
 SNAP = None
@@ -192,7 +195,7 @@ for _ops in ([0, NF + 0, 1, 2], [3, NF + 3, 4], [0, 1, 2, 5], [6, NF + 6, 7, 0])
 _HIST = '''
 @obligation(pre="o1 == {lo} and 0 <= o2 < NF and 0 <= k <= 2 and o2 != o1", witnesses=(0,), timeout=300)
 def body_history_{lo}(o1: int, o2: int, d1: bool, d2: bool, r2: bool, r3: bool, k: int, i: int, s: str) -> int:
-    """histories: use type {lo} [drop it] use type o2 [drop it] use {lo} again, use o2 again -- over 8 type factories, with an allocator that may recycle the ids of dead types: every memoised lookup behaves like a fresh converter"""
+    """histories: use type {lo} [drop it] use type o2 [drop it] use {lo} again, use o2 again -- over 10 type factories, with an allocator that may recycle the ids of dead types: every memoised lookup behaves like a fresh converter"""
     o1, o2 = conc(o1, NF), conc(o2, NF)
     ops = [o1]
     if d1:
@@ -202,7 +205,7 @@ def body_history_{lo}(o1: int, o2: int, d1: bool, d2: bool, r2: bool, r3: bool, 
         ops.append(NF + o2)
     ops.append(o1)
     ops.append(o2)
-    return run_history(ops, [False, r2, r3, True, True, True], [lf(k, i, s)])
+    return run_history(ops, [False, r2, r3, True, True, True], [lf(k, i, s, True)])
 '''.replace('NF', str(NF))
 for _lo in range(0, NF):
     exec(_HIST.format(lo=_lo))
